@@ -100,6 +100,8 @@ static RunResult exec_sorter(const Plan &p)
 	}
 	int pool = (int)p.geti("pool", -1);
 	mtbl_threadpool *tp = nullptr;
+	s.entry_overhead = sorter_entry_overhead(dir);	// measured once per process, before this run's temp files are counted
+	if (s.entry_overhead) res.probes["sorter-accounting-measured"]++;
 	sim_ledger_reset();
 	if (pool >= 0) {
 		sim_sched_cfg sc; sched_cfg_parse(p.gets("sched", "0:1:0:1:0:0:0:1:0:1:200000:1000"), &sc);
